@@ -14,7 +14,10 @@ PROP = dict(
                "Sampled, not exhaustive: a pass is absence of counterexamples in the generated sample.",
     level_note="Trusts the harness's brace-expansion model (self-tested on the package's documented examples at every run) and "
                "doublestar.Match on brace-free patterns as the meaning of a single expanded alternative; paths are absolute without empty "
-               "components (as delivered by the kernel), escaped '/' in patterns is outside the generated domain.",
+               "components (as delivered by the kernel), escaped '/' in patterns is outside the generated domain. Seven recorded defects "
+               "(F-C37-1..7: doublestar's in-place group handling and empty-remainder handling, the trailing-'/' rule on the unexpanded "
+               "pattern, and four ways in which the variant spelling changes the meaning) are attributed by narrow predicates and counted; "
+               "a harness-side matcher written from the documented glob semantics is used only for that attribution, never as a verdict.",
     rule="match: one case = a generated pattern plus 5 paths obtained by instantiating the wildcards of one of its expansions and perturbing "
          "(trailing slash toggled, component added/dropped, character changed); non-trivial = the pattern is accepted and has >= 2 groups or "
          "contains '**'. precedence: one case = a path and 2-6 rendered variants that match it; non-trivial = at least two distinct members "
